@@ -4,8 +4,8 @@ from .. import env, coq, runner
 
 LEVEL = 'proof'
 META = dict(
-    text='Coq theorems (unbounded): bit packing round-trips for every number of repetitions with zero padding and little-endian-in-byte order; the constants-table interning scheme of the circuit serializer round-trips every circuit over abstract leaves with decidable equality, shares an index exactly between equal items and only refers backwards; result messages (keys x instances x qubits x packed repetitions) round-trip; the qubit id codec (qubit_to_proto_id / qubit_from_proto_id: decimal printing, split on underscores, the grid pattern, int()) reads back every grid, line, named and coupler qubit of the documented vocabulary for all signed coordinates, ids of the vocabulary never collide, and the unrestricted statement is refuted (a named qubit called 3); the device read from a DeviceSpecification holds a coupling exactly where a SYMMETRIC target set lists the two ids in either order (target sets of any other ordering and targets of any other size add nothing), its validate_operation accepts a two-qubit gate exactly on those couplings and measurement / wait on any device qubits, and to_proto writes a specification of the same qubits and couplings that reads back as the same device; an array-valued argument, modelled as a strided view on a buffer (any strides: C- or Fortran-contiguous, transposed, sliced, reversed, broadcast; any offset), is written as its shape and its elements in the row-major order of their indices and reads back, for every shape with at least one axis, to an array with the same element at every index, the message depends on the elements at the indices only and never on the memory layout, bit arrays (most significant bit first, zero padded) round-trip, and the statement for zero-dimensional arrays is refuted (an empty shape field is read as an unset message); find_measurements accepts a program exactly with one entry per key whose qubits, order, invert mask and tags are those of EVERY operation writing to the key, accepts every program that measures each key alike on grid qubits, and for an accepted program the result message holds, under the id of the c-th qubit of the j-th operation of a key, at position r * instances + j, the bit the record has at [r][j][c]. The Gallina models are hand-written in the shape of the code and evaluated with vm_compute against the implementation on every run, together with direct round-trip oracles on the real serializers for circuits, sweeps, run contexts, results, simulated programs with repeated measurement keys, array-valued arguments and device specifications.',
-    note='Trusted: Coq kernel; protobuf and numpy; the Python adapters in vf/checks/c16.py (calling cirq_google, assigning leaf identifiers by Python equality, printing Gallina literals); the leaf codecs (gate arguments, tags, conditions) are compared on generated cases, not proved; the qubit id model covers ASCII ids only; array elements are abstract in the model (the byte image of one number and its endianness are compared on generated cases through numpy); the simulator (cirq.Simulator) is the reference for what a program records; the device model covers qubits, target sets and couplings (gates, durations and qubit attributes of a specification are judged by the Python oracle against device.proto); sweep values that carry units (tunits) are judged as physical quantities up to one single-precision rounding of the stored magnitude (2^-22 relative, 1e-12 with use_float64). Theorems are closed under the global context.',
+    text='Coq theorems (unbounded): bit packing round-trips for every number of repetitions with zero padding and little-endian-in-byte order; the constants-table interning scheme of the circuit serializer round-trips every circuit over abstract leaves with decidable equality, shares an index exactly between equal items and only refers backwards; result messages (keys x instances x qubits x packed repetitions) round-trip; the qubit id codec (qubit_to_proto_id / qubit_from_proto_id: decimal printing, split on underscores, the grid pattern, int()) reads back every grid, line, named and coupler qubit of the documented vocabulary for all signed coordinates, ids of the vocabulary never collide, and the unrestricted statement is refuted (a named qubit called 3); the device read from a DeviceSpecification holds a coupling exactly where a SYMMETRIC target set lists the two ids in either order (target sets of any other ordering and targets of any other size add nothing), its validate_operation accepts a two-qubit gate exactly on those couplings and measurement / wait on any device qubits, and to_proto writes a specification of the same qubits and couplings that reads back as the same device; an array-valued argument, modelled as a strided view on a buffer (any strides: C- or Fortran-contiguous, transposed, sliced, reversed, broadcast; any offset), is written as its shape and its elements in the row-major order of their indices and reads back, for every shape with at least one axis, to an array with the same element at every index, the message depends on the elements at the indices only and never on the memory layout, bit arrays (most significant bit first, zero padded) round-trip, and the statement for zero-dimensional arrays is refuted (an empty shape field is read as an unset message); find_measurements accepts a program exactly with one entry per key whose qubits, order, invert mask and tags are those of EVERY operation writing to the key, accepts every program that measures each key alike on grid qubits, and for an accepted program the result message holds, under the id of the c-th qubit of the j-th operation of a key, at position r * instances + j, the bit the record has at [r][j][c].; a sequence-valued argument (list / tuple / set / frozenset of bools, numpy bools, integers, floats, strings and other values in any mixture and order) is written by arg_to_proto into the repeated numeric field that is wide enough for every element (the cursor over bool_values / int64_values / double_values only ever widens), into string_values, or element by element into a tuple_value, and is read back with the same length, every number unchanged (a lone number of a mixed tuple rounded once to single precision) and every other element as it was; nothing but an integer outside int64 is refused; a list comes back as a list, whereas the statement that every sequence keeps its kind is refuted (a tuple of numbers comes back as a list), and so is the rule that would pick the field from the leading element alone. The Gallina models are hand-written in the shape of the code and evaluated with vm_compute against the implementation on every run, together with direct round-trip oracles on the real serializers for circuits, sweeps, run contexts, results, simulated programs with repeated measurement keys, array-valued arguments, sequence-valued arguments (through the bare Arg, InternalGate / InternalTag arguments, ArgMapping values and keys, circuit function arguments, raw-value tags and whole programs) and device specifications.',
+    note='Trusted: Coq kernel; protobuf and numpy; the Python adapters in vf/checks/c16.py (calling cirq_google, assigning leaf identifiers by Python equality, printing Gallina literals); the leaf codecs (gate arguments, tags, conditions) are compared on generated cases, not proved; the qubit id model covers ASCII ids only; array elements are abstract in the model (the byte image of one number and its endianness are compared on generated cases through numpy); in the sequence model a float is the exact rational it denotes, an integer next to a float is assumed exact in a double (|z| <= 2^53), elements other than numbers and strings are opaque (their own round trip is judged by the Python oracle, recursively), and a set is given in its iteration order; the simulator (cirq.Simulator) is the reference for what a program records; the device model covers qubits, target sets and couplings (gates, durations and qubit attributes of a specification are judged by the Python oracle against device.proto); sweep values that carry units (tunits) are judged as physical quantities up to one single-precision rounding of the stored magnitude (2^-22 relative, 1e-12 with use_float64). Theorems are closed under the global context.',
     technique='Rocq/Coq proof over executable Gallina models of pack_bits, the constants table and result messages + vm_compute correspondence and round-trip oracles against cirq_google',
 )
 
@@ -356,8 +356,10 @@ class Vocab:
             return cirq.ResetChannel()
         if k == 'depol':
             return cirq.DepolarizingChannel(p=rng.choice([0.1, 0.25, 0.01] + ([0.0] if self.known else [])))
+        # (a tuple that holds a string travels as a tuple_value and keeps its kind; tuples of numbers only: finding arg:sequence-kind,
+        #  lists: finding circuit:internal-args-unhashable -- both are the business of the arg_sequences stream)
         return cg.InternalGate(rng.choice(['G1', 'G2']), rng.choice(['mod.a', '']), 1,
-                               **{rng.choice(['a', 'b']): rng.choice([1.5, 0.1, 3, 'txt', True, self.t])})
+                               **{rng.choice(['a', 'b']): rng.choice([1.5, 0.1, 3, 'txt', True, self.t, ('cfg', 1, 2.5), (0.5, 'x', True), (2, 0.1, ('in', 3))])})
 
     def gate2(self):
         cirq, cg, rng = self.cirq, self.cg, self.rng
@@ -396,7 +398,7 @@ class Vocab:
         if k == 'dd':
             return DynamicalDecouplingTag(rng.choice(['X', 'XY4']))
         if k == 'internal':
-            return InternalTag(name='T', package='pkg', **{rng.choice(['k', 'l']): rng.choice([1, 'v', 0.1])})
+            return InternalTag(name='T', package='pkg', **{rng.choice(['k', 'l']): rng.choice([1, 'v', 0.1, ('v', 2, 0.75), (1, 0.1, 'w')])})
         if k == 'compress':
             return CompressDurationTag()
         if isinstance(gate, cirq.ZPowGate):
@@ -563,6 +565,8 @@ def make_norm(cirq, cg):
             return nexpr(x)
         if isinstance(x, (bool, str)) or x is None:
             return x
+        if isinstance(x, (tuple, list)):
+            return type(x)(r32(y) for y in x)
         if isinstance(x, (int, float, np.integer, np.floating)):
             f = float(np.float32(x))
             return int(f) if f == int(f) and abs(f) < 2 ** 31 else f
@@ -2442,6 +2446,425 @@ def ndarrays_stream(ctx, cirq, cg, n):
         bitrows = allbits
 
 
+# ------------------------------------------------------------------ sequence-valued arguments (model: Codec/ArgSeq.v)
+SEQ_KINDS = ['list', 'tuple', 'set', 'frozenset']
+SEQ_COQ = {'list': 'KList', 'tuple': 'KTuple', 'set': 'KSet', 'frozenset': 'KFrozen'}
+SEQ_TYPES = {'list': list, 'tuple': tuple, 'set': set, 'frozenset': frozenset}
+SEQ_ELEM_KINDS = ['b', 'nb', 'i', 'ni', 'f', 'nf']     # bool, numpy bool, int, numpy integer, float, numpy floating
+# the value an element kind takes at position 0, 1, 2 of a grid sequence: pairwise different numbers, no float is integral and
+# no integer is 0 or 1, so that a number that is cut to an integer or to a bool is a number that changes
+SEQ_GRID_VALUES = {'b': [['b', True], ['b', False], ['b', True]], 'nb': [['nb', False], ['nb', True], ['nb', True]],
+                   'i': [['i', 2], ['i', 7], ['i', -3]], 'ni': [['ni', 4, 'int64'], ['ni', 9, 'int32'], ['ni', -5, 'int8']],
+                   'f': [['f', 2.5], ['f', 0.75], ['f', -1.25]], 'nf': [['nf', 3.5, 'float64'], ['nf', 0.375, 'float32'], ['nf', -2.75, 'float16']]}
+SEQ_OTHERS = ['(1, 2.5)', '[3, 0.5]', '(1+2j)', "sympy.Symbol('t')", '2 * tunits.ns', "b'ab'", "('a', (True, 0.5))", '(0.5, 7)', "('p', 'q')"]
+SEQ_OTHERS_UNHASHABLE = ['[3, 0.5]']
+
+
+def seq_namespace():
+    import sympy
+    import tunits
+    return dict(np=np, sympy=sympy, tunits=tunits)
+
+
+def seq_elem(e):
+    """The Python value of one recipe element: [kind, payload, (numpy type)]."""
+    k = e[0]
+    if k == 'b':
+        return bool(e[1])
+    if k == 'nb':
+        return np.bool_(e[1])
+    if k == 'i':
+        return int(e[1])
+    if k in ('ni', 'nf'):
+        return getattr(np, e[2])(e[1])
+    if k == 'f':
+        return float(e[1])
+    if k == 's':
+        return str(e[1])
+    return eval(e[1], seq_namespace())            # 'x': any other value, given as a literal
+
+
+def seq_build(rc):
+    return SEQ_TYPES[rc['seq']](seq_elem(e) for e in rc['elems'])
+
+
+def seq_literal(rc):
+    return repr(seq_build(rc))
+
+
+def is_number(x):
+    return isinstance(x, (bool, np.bool_, int, float, np.integer, np.floating))
+
+
+def arg_diff(want, got, path='the value'):
+    """None when `got` is the argument `want` read back as the property allows: every number the same up to one single-precision
+    rounding (a bool may come back as the number 0 / 1), every string / bytes / complex / symbol / unit value equal, every
+    sequence of the same length with its elements in place (a set: the same elements) and of the same kind.
+    Else (level, what): level 'values' when a number, an element or a length differs; when only the kind of a sequence does, 'kind' for
+    a sequence of numbers and 'kind-other' for any other sequence."""
+    import sympy
+    if is_number(want):
+        if not is_number(got):
+            return 'values', f'{path} {want!r} came back as {got!r} ({type(got).__name__})'
+        fw, fg = float(want), float(got)
+        with np.errstate(over='ignore'):
+            same = fw == fg or (fw != fw and fg != fg) or bool(np.float32(fw) == np.float32(fg))
+        return None if same else ('values', f'{path} {want!r} came back as {got!r}')
+    if isinstance(want, (list, tuple, set, frozenset)):
+        if not isinstance(got, (list, tuple, set, frozenset)):
+            return 'values', f'{path} {want!r} came back as {got!r} ({type(got).__name__})'
+        kind_note = None
+        if isinstance(want, (list, tuple)):
+            if len(got) != len(want):
+                return 'values', f'{path} {want!r} (length {len(want)}) came back as {got!r} (length {len(got)})'
+            if not isinstance(got, (list, tuple)):
+                return 'values', f'{path} {want!r} came back without its order: {got!r}'
+            for i, (w, g) in enumerate(zip(want, got)):
+                d = arg_diff(w, g, f'element {i} of {path}' if path != 'the value' else f'element {i}')
+                if d is not None and d[0] == 'values':
+                    return 'values', d[1] + f' ({want!r} came back as {got!r})'
+                kind_note = d if d is not None and (kind_note is None or (d[0] == 'kind-other' and kind_note[0] == 'kind')) else kind_note
+        else:
+            # a set: the same elements (elements that single-precision rounding makes equal may have merged)
+            matches = lambda w, g: (arg_diff(w, g) or ('kind',))[0] != 'values'
+            for w in want:
+                hit = next((g for g in got if matches(w, g)), None)
+                if hit is None:
+                    return 'values', f'element {w!r} of {path} {want!r} is not among what came back: {got!r}'
+                d = arg_diff(w, hit)
+                kind_note = d if d is not None and (kind_note is None or (d[0] == 'kind-other' and kind_note[0] == 'kind')) else kind_note
+            stray = [g for g in got if not any(matches(w, g) for w in want)]
+            if stray or len(got) > len(want):
+                return 'values', f'{path} {want!r} came back with elements it did not hold ({stray!r}): {got!r}'
+        if type(got) is not type(want):
+            # a sequence of numbers travels in a repeated numeric field, which has no sequence type (finding arg:sequence-kind);
+            # any other sequence travels as a tuple_value, which has one
+            here = ('kind' if seq_all_numbers(want) else 'kind-other', f'{path} {want!r}, a {type(want).__name__}, came back as a {type(got).__name__}: {got!r}')
+            return here if here[0] == 'kind-other' or kind_note is None else kind_note
+        return kind_note
+    if isinstance(want, np.ndarray):
+        return None if isinstance(got, np.ndarray) and got.shape == want.shape and np.array_equal(want, got) else ('values', f'{path} {want!r} came back as {got!r}')
+    if isinstance(want, sympy.Basic):
+        return None if isinstance(got, sympy.Basic) and want == got else ('values', f'{path} {want!r} came back as {got!r}')
+    import tunits
+    alike = type(got) is type(want) or (isinstance(want, tunits.Value) and isinstance(got, tunits.Value))     # (Time(2, 'ns') is read as Value(2, 'ns'))
+    if not alike or not (want == got):
+        return 'values', f'{path} {want!r} came back as {got!r} ({type(got).__name__})'
+    return None
+
+
+def seq_int64_overflow(v):
+    """Whether the sequence holds an integer the int64 field has no room for (the only thing that may be refused)."""
+    return any(isinstance(x, (int, np.integer)) and not isinstance(x, bool) and not -2 ** 63 <= int(x) < 2 ** 63 for x in v)
+
+
+def seq_hashable(v):
+    try:
+        hash(v)
+        return True
+    except TypeError:
+        return False
+
+
+def seq_all_numbers(v):
+    return isinstance(v, (list, tuple, set, frozenset)) and len(v) > 0 and all(is_number(x) for x in v)
+
+
+def holds_hashable_numbers(v):
+    """Whether v is, or holds at any depth, a hashable sequence of numbers (a tuple or frozenset: read back as a list)."""
+    if isinstance(v, (tuple, frozenset)) and seq_all_numbers(v):
+        return True
+    return isinstance(v, (list, tuple, set, frozenset)) and any(holds_hashable_numbers(x) for x in v)
+
+
+def seq_check(cirq, cg, rc, report, in_program=True):
+    """Every way one sequence-valued argument reaches the wire (always through the bytes of the message): the bare Arg, an
+    InternalGate argument, an InternalTag argument, an ArgMapping value (and key), the argument of a circuit function, and
+    inside a program an InternalGate argument, an InternalTag argument and a raw-value tag.  report(signature, what, replay)
+    is called for each failure; returns (the value, the Arg message arg_to_proto wrote | 'refused' | None, failures)."""
+    from cirq_google.api import v2
+    from cirq_google.serialization import arg_func_langs as afl
+    S = cg.CIRCUIT_SERIALIZER
+    pb = v2.program_pb2
+    q0 = cirq.GridQubit(1, 2)
+    v = seq_build(rc)
+    lit = repr(v)
+    failures = []
+
+    def through_bytes(msg, cls):
+        m = cls()
+        m.ParseFromString(msg.SerializeToString())
+        return m
+
+    def attempt(write, read):
+        try:
+            m = write()
+        except ValueError as e:
+            return 'refused', f'ValueError: {str(e)[:160]}'
+        except Exception as e:
+            return 'raised', f'{type(e).__name__}: {str(e)[:160]}'
+        try:
+            return 'ok', read(m)
+        except Exception as e:
+            return 'unreadable', f'{type(e).__name__}: {str(e)[:160]}'
+
+    def fail(sig, what, entry):
+        failures.append((sig, entry))
+        report(sig, what[:1500], dict(kind='arg_sequence', recipe=dict(rc), entry=entry))
+
+    def judge(entry, status, back, want=None):
+        want = v if want is None else want
+        if status == 'ok':
+            d = arg_diff(want, back)
+            if d is None:
+                return True
+            if d[0] == 'values':
+                fail('arg:sequence-values', f'{entry}: the argument read back is not the argument written: {d[1]}; value = {lit}', entry)
+            elif d[0] == 'kind':
+                fail('arg:sequence-kind', f'{entry}: {d[1]}; value = {lit} (the numbers are the same, the object that holds them is not equal to the one written)', entry)
+            else:
+                fail('arg:sequence-kind-lost', f'{entry}: {d[1]}; value = {lit} (a sequence that is written element by element with its sequence type)', entry)
+            return False
+        if status == 'refused' and seq_int64_overflow(v):
+            return True                         # the format has no room for the integer, and says so
+        if status == 'unreadable' and 'unhashable' in str(back) and holds_hashable_numbers(v):
+            fail('arg:sequence-kind', f'{entry}: written without complaint, reading raises {back}: a tuple / frozenset of numbers in {lit} is read back as a list, '
+                 f'which cannot stand where it stood (a dict key, an element of a set)', entry)
+            return False
+        fail('arg:' + status, f'{entry}: {"writing raises" if status != "unreadable" else "written without complaint, reading raises"} {back}; value = {lit}', entry)
+        return False
+
+    holder = {}
+
+    def write_bare():
+        holder['m'] = 'refused'
+        holder['m'] = through_bytes(afl.arg_to_proto(v), pb.Arg)
+        return holder['m']
+    st, back = attempt(write_bare, afl.arg_from_proto)
+    if st not in ('ok', 'refused'):
+        holder['m'] = None
+    judge('arg_from_proto(arg_to_proto(value))', st, back)
+    gate = cg.InternalGate('Ramp', 'pulses', 1, levels=v, other=0.5)
+    st, back = attempt(lambda: through_bytes(afl.internal_gate_arg_to_proto(gate), pb.InternalGate), lambda m: afl.internal_gate_from_proto(m).gate_args.get('levels'))
+    judge("internal_gate_from_proto(internal_gate_arg_to_proto(InternalGate(.., levels=value))).gate_args['levels']", st, back)
+    tag = cg.InternalTag(name='Shape', package='pulses', knots=v)
+    st, back = attempt(lambda: through_bytes(tag.to_proto(), pb.Tag), lambda m: cg.InternalTag.from_proto(m).tag_args.get('knots'))
+    judge("InternalTag.from_proto(InternalTag(.., knots=value).to_proto()).tag_args['knots']", st, back)
+    st, back = attempt(lambda: through_bytes(afl.dict_to_arg_mapping_proto({'k': v, 'other': 1.5}), pb.ArgMapping), lambda m: afl.dict_from_arg_mapping_proto(m).get('k'))
+    judge("dict_from_arg_mapping_proto(dict_to_arg_mapping_proto({'k': value, ..}))['k']", st, back)
+    if seq_hashable(v):
+        st, back = attempt(lambda: through_bytes(afl.dict_to_arg_mapping_proto({v: 'under the value'}), pb.ArgMapping),
+                           lambda m: next(iter(afl.dict_from_arg_mapping_proto(m))))
+        judge("the key of dict_from_arg_mapping_proto(dict_to_arg_mapping_proto({value: ..}))", st, back)
+    if in_program:
+        plain = cirq.Circuit(cirq.X(q0))
+        st, back = attempt(lambda: through_bytes(S.serialize_circuit_function(lambda w: plain, cirq.Points('w', [v])), pb.Program),
+                           lambda m: dict(S.deserialize_multi_program(m)[0][1]).get('w'))
+        judge("circuit function called with w=value: the argument listed by deserialize_multi_program(serialize_circuit_function(..))", st, back)
+        ops = [gate.on(q0), cirq.X(q0).with_tags(tag)] + ([cirq.Y(q0).with_tags(v)] if seq_hashable(v) else [])
+        circuit = cirq.Circuit(ops)
+
+        def read_program(m):
+            got = list(S.deserialize(m).all_operations())
+            return (got[0].gate.gate_args.get('levels'), got[1].tags[0].tag_args.get('knots')) + ((got[2].tags[0],) if len(ops) == 3 else ())
+        st, back = attempt(lambda: through_bytes(S.serialize(circuit), pb.Program), read_program)
+        if st == 'raised' and 'unhashable' in str(back) and not seq_hashable(v):
+            fail('circuit:internal-args-unhashable', f'a program with an InternalGate / InternalTag argument {lit} cannot be serialized: serialize raises {back} (the constants table '
+                 f'hashes the operation, whose value equality holds the argument dict as it is)', 'program')
+        elif st != 'ok':
+            judge('program with the value as InternalGate argument, InternalTag argument and raw tag: deserialize(serialize(c))', st, back)
+        else:
+            for what, b in zip(['InternalGate argument', 'InternalTag argument', 'raw-value tag'], back):
+                judge(f'program holding the value as {what}: deserialize(serialize(c))', 'ok', b)
+    return v, holder.get('m'), failures
+
+
+def q_lit(x):
+    """Gallina literal of the exact rational a finite float is."""
+    from fractions import Fraction
+    fr = Fraction(float(x))
+    return f'(Qmake ({fr.numerator})%Z ({fr.denominator})%positive)'
+
+
+def seq_model_rows(cirq, v, m):
+    """(elements of the model, message the implementation wrote as a term of Codec/ArgSeq.v) or None when the value is outside
+    the model (a float that is not finite, an integer a double cannot hold exactly next to a float)."""
+    from cirq_google.serialization import arg_func_langs as afl
+    xs = list(v)
+    sid = {}
+    elems = []
+    for i, x in enumerate(xs):
+        if isinstance(x, bool):
+            elems.append(f'EB {"true" if x else "false"}')
+        elif isinstance(x, np.bool_):
+            elems.append(f'ENB {"true" if x else "false"}')
+        elif isinstance(x, np.integer):
+            elems.append(f'ENI {coq.zlit(int(x))}')
+        elif isinstance(x, int):
+            elems.append(f'EI {coq.zlit(int(x))}')
+        elif isinstance(x, (float, np.floating)):
+            if not np.isfinite(float(x)):
+                return None
+            elems.append(f'EF {q_lit(x)}')
+        elif isinstance(x, str):
+            elems.append(f'ES {sid.setdefault(x, len(sid))}')
+        else:
+            elems.append(f'EX {i}')
+    has_float = any(isinstance(x, (float, np.floating)) for x in xs)
+    if has_float and any(isinstance(x, (int, np.integer)) and not isinstance(x, bool) and abs(int(x)) > 2 ** 53 for x in xs):
+        return None
+    if m == 'refused':
+        wire = 'WRefused'
+    else:
+        av = m.arg_value
+        w = av.WhichOneof('arg_value') if m.WhichOneof('arg') == 'arg_value' else None
+        if w == 'bool_values':
+            wire = f'(WBools {coq.blist(av.bool_values.values)})'
+        elif w == 'int64_values':
+            wire = f'(WInts {coq.zlist(av.int64_values.values)})'
+        elif w == 'double_values':
+            if not all(np.isfinite(x) for x in av.double_values.values):
+                return None
+            wire = f'(WDoubles [{"; ".join(q_lit(x) for x in av.double_values.values)}])'
+        elif w == 'string_values':
+            wire = f'(WStrings {coq.zlist(sid.get(s, -1) for s in av.string_values.values)})'
+        elif w == 'tuple_value':
+            tv = av.tuple_value
+            kind = {1: 'KList', 2: 'KTuple', 3: 'KSet', 4: 'KFrozen'}.get(int(tv.sequence_type))
+            if kind is None:
+                return None
+            sw = []
+            for i, a in enumerate(tv.values):
+                wa = a.arg_value.WhichOneof('arg_value') if a.WhichOneof('arg') == 'arg_value' else None
+                if wa == 'bool_value':
+                    sw.append(f'SBool {"true" if a.arg_value.bool_value else "false"}')
+                elif wa == 'float_value':
+                    if not np.isfinite(a.arg_value.float_value):
+                        return None
+                    sw.append(f'SFloat {q_lit(a.arg_value.float_value)}')
+                elif wa == 'string_value':
+                    sw.append(f'SStr {coq.zlit(sid.get(a.arg_value.string_value, -1))}')
+                else:
+                    try:        # any other message stands for the element at its place when it reads back as that element
+                        same = i < len(xs) and (arg_diff(xs[i], afl.arg_from_proto(a)) or ('kind',))[0] != 'values'
+                    except Exception:
+                        same = False
+                    sw.append(f'SOther {coq.zlit(i if same else -1)}')
+            wire = f'(WTuple {kind} [{"; ".join(sw)}])'
+        else:
+            return None
+    return '[' + '; '.join(elems) + ']', wire
+
+
+def fixed_seq_recipes():
+    """For every VERIF_SEED: every sequence of one, two and three numbers over the six kinds of number (bool, numpy bool, int,
+    numpy integer, float, numpy floating -- every order, so every narrower-before-wider mixture) in each of the four kinds of
+    sequence; then special values."""
+    import itertools
+    out = []
+    for n in (1, 2, 3):
+        for kinds in itertools.product(SEQ_ELEM_KINDS, repeat=n):
+            for seq in SEQ_KINDS:
+                out.append(dict(seq=seq, elems=[SEQ_GRID_VALUES[k][p] for p, k in enumerate(kinds)]))
+    I, F, B, Sx, X = (lambda z: ['i', z]), (lambda x: ['f', x]), (lambda b: ['b', b]), (lambda s: ['s', s]), (lambda l: ['x', l])
+    specials = [
+        [I(1), F(2.5), F(0.75)], [I(0), F(0.25), F(0.5), F(0.75)], [B(True), I(3), I(0)], [B(False), F(0.5)], [I(10), F(12.5)],
+        [['ni', 1, 'int64'], ['nf', 1.5, 'float64']], [F(2.5), I(1), I(4)], [I(2), B(True), I(0)], [I(3), I(8), I(-2)], [F(42.9), F(3.14), F(0.5)],
+        [I(z) for z in range(2, 10)] + [F(0.1)], [B(i % 2 == 0) for i in range(8)] + [I(5)], [B(True)] * 3 + [I(4)] * 3 + [F(4.5)] * 2,
+        [I(5), I(6), F(6.5), I(7), I(8)], [B(True), B(False), F(1e-7)], [I(1), F(1.0000001)], [I(-1), F(-0.999)], [I(100000), F(100000.5)],
+        [I(2 ** 62), I(1)], [I(-2 ** 63), I(5)], [I(2 ** 63)], [I(2 ** 63), F(0.5)], [I(2 ** 53), F(0.5)], [I(2 ** 40 + 1), F(0.5)], [B(True), I(2 ** 40 + 1)],
+        [['ni', 200, 'uint8'], F(0.5)], [['ni', 2 ** 63 - 1, 'uint64'], I(1)], [['nf', 0.1, 'float32'], I(1)], [I(1), ['nf', 0.1, 'float32']],
+        [I(1), F(float('inf'))], [F(float('-inf')), I(2)],
+        [Sx('a'), Sx('b')], [Sx(''), Sx('x')], [Sx('a'), I(1)], [I(1), Sx('a')], [Sx('a'), B(True)], [B(True), Sx('a')], [Sx('a'), F(2.5), I(2)], [I(2), F(2.5), Sx('a')],
+        [I(3), ['nb', True]], [['nb', True], I(3)], [F(0.5), ['nb', False]], [['nb', False], F(0.5)],
+        [],
+    ]
+    for lit in SEQ_OTHERS:
+        specials += [[X(lit)], [X(lit), I(1)], [I(1), X(lit)], [I(1), F(2.5), X(lit)], [X(lit), Sx('s')], [Sx('s'), X(lit)]]
+    for elems in specials:
+        for seq in SEQ_KINDS:
+            if seq in ('set', 'frozenset') and any(e[0] == 'x' and e[1] in SEQ_OTHERS_UNHASHABLE for e in elems):
+                continue
+            out.append(dict(seq=seq, elems=elems))
+    return out
+
+
+def gen_seq_recipe(rng):
+    seq = rng.choice(SEQ_KINDS)
+    profile = rng.choice(['numbers', 'numbers', 'numbers', 'mixed'])
+    elems = []
+    for _ in range(rng.choice([1, 2, 2, 3, 3, 4, 5, 8])):
+        k = rng.choice(SEQ_ELEM_KINDS + (['s', 's', 'x'] if profile == 'mixed' else []))
+        if k in ('b', 'nb'):
+            elems.append([k, rng.random() < 0.5])
+        elif k == 'i':
+            elems.append([k, rng.choice([0, 1, 2, -1, rng.randrange(-100, 100), rng.randrange(-2 ** 31, 2 ** 31), rng.randrange(-2 ** 52, 2 ** 52)])])
+        elif k == 'ni':
+            t = rng.choice(['int64', 'int32', 'int16', 'int8', 'uint8', 'uint32'])
+            lo, hi = (0, 200) if t.startswith('u') else (-100, 100)
+            elems.append([k, rng.randrange(lo, hi), t])
+        elif k == 'f':
+            elems.append([k, rng.choice([0.5, 0.25, -0.75, 2.5, 0.1, 1 / 3, 1e-7, 1e10 + 0.5, round(rng.uniform(-100, 100), 3), rng.uniform(-1, 1), float(rng.randrange(-5, 5))])])
+        elif k == 'nf':
+            t = rng.choice(['float64', 'float32', 'float16'])
+            elems.append([k, float(getattr(np, t)(rng.choice([0.5, -2.75, 0.1, 3.0, round(rng.uniform(-50, 50), 2)]))), t])
+        elif k == 's':
+            elems.append([k, rng.choice(['a', 'b', '', 'two words', '1'])])
+        else:
+            elems.append([k, rng.choice([l for l in SEQ_OTHERS if seq in ('list', 'tuple') or l not in SEQ_OTHERS_UNHASHABLE])])
+    return dict(seq=seq, elems=elems)
+
+
+def replay_arg_sequence(cirq, cg, data):
+    problems = []
+    v, _, _ = seq_check(cirq, cg, data['recipe'], lambda sig, what, rp: problems.append((sig, what, rp)))
+    print('value =', repr(v))
+    hit = [p_ for p_ in problems if p_[2].get('entry') == data['entry']] if data.get('entry') else problems
+    if data.get('signature', '').startswith(('arg:', 'circuit:')):          # the failure that was recorded, not a recorded finding next to it
+        hit = [p_ for p_ in hit if p_[0] == data['signature']]
+    for sig, what, _ in hit:
+        print(sig, '|', what[:800])
+    return not hit
+
+
+def arg_sequences_stream(ctx, cirq, cg, n):
+    """Sequence-valued arguments: every mixture and order of the kinds of number, strings and other values, in a list / tuple /
+    set / frozenset, through every user of the Arg encoding; the message against the model Codec/ArgSeq.v."""
+    rng = ctx.rng
+    recipes = fixed_seq_recipes() + [gen_seq_recipe(rng) for _ in range(n)]
+    rows = []
+    for case, rc in enumerate(recipes):
+        hashable_seq = rc['seq'] in ('tuple', 'frozenset')
+        v, m, failures = seq_check(cirq, cg, rc, ctx.violation, in_program=(hashable_seq or case % 5 == 0))
+        kinds = [e[0] for e in rc['elems']]
+        rank = {'b': 0, 'nb': 0, 'i': 1, 'ni': 1, 'f': 2, 'nf': 2}
+        ranks = [rank.get(k, 3) for k in (kinds if rc['seq'] in ('list', 'tuple') else
+                                          ['b' if isinstance(x, bool) else 'nb' if isinstance(x, np.bool_) else 'i' if isinstance(x, (int, np.integer)) else
+                                           'f' if isinstance(x, (float, np.floating)) else 's' for x in v])]
+        widening = len(ranks) >= 2 and max(ranks) <= 2 and ranks[0] < max(ranks)        # a narrower kind of number leads a wider one
+        ctx.count('arg_sequence:roundtrip', [rc['seq'], rc['elems']], len(set(kinds)) >= 2,
+                  sample=dict(value=repr(v)[:200], field=None if m in (None, 'refused') else m.arg_value.WhichOneof('arg_value')) if widening else None)
+        if widening:
+            ctx.count('arg_sequence:narrow_kind_leads', [rc['seq'], rc['elems']], True)
+        if m is None:
+            continue
+        row = seq_model_rows(cirq, v, m)
+        if row is None:
+            continue
+        rows.append((SEQ_COQ[rc['seq']], row[0], row[1], rc))
+        ctx.count('arg_sequence:message', [rc['seq'], rc['elems']], len(set(kinds)) >= 2)
+    head = ('From Coq Require Import ZArith QArith List Bool.\nFrom VF Require Import Codec.ArgSeq Base.Harness.\nImport ListNotations.\nOpen Scope Z_scope.\n')
+    for shard in range(0, len(rows), 450):
+        part = rows[shard:shard + 450]
+        text = head + 'Definition cs : list (skind * list elem * wire) := [\n' + ';\n'.join(f'({k}, {xs}, {w})' for k, xs, w, _ in part) + '].\n'
+        text += 'Eval vm_compute in failing (fun c => match c with (k, xs, w) => wire_eqb w (ArgSeq.encode (fun q => q) k xs) end) cs.\n'
+        vals = coq.parse_evals(coq.coq_eval(f'c16_argseq_{ctx.seed}_{shard}', text))
+        for idx in coq.parse_nat_list(vals[0]):
+            k, xs, w, rc = part[idx]
+            ctx.mark_broken('correspondence:arg_sequence', f'the message arg_to_proto writes for {seq_literal(rc)} is not the one of the model: model input {k} {xs}, '
+                            f'implementation wrote {w}'[:2500])
+
+
 # ------------------------------------------------------------------ result messages of measured programs
 def le_bits(data, n):
     """Bit i of a packed result, little-endian within a byte (result.proto: QubitMeasurementResult.results)."""
@@ -2674,7 +3097,9 @@ def run(ctx):
                 'every seed), simulated with 1..16 repetitions and judged bit by bit against the records; arrays: every element type x 10 shapes (0-d, empty, 1..3 axes, square) x 15 memory '
                 'layouts (C, Fortran-allocated, asfortranarray, transposed, every axis permutation of 3 axes, strided, reversed, windowed, broadcast, swapped byte order) for every seed plus '
                 'random axis permutations / steps / offsets, through the helpers with widening, arg_to_proto, InternalGate / InternalTag arguments and whole programs; non-trivial array = at least '
-                'two axes, four elements and not C-contiguous; every pair of device qubits in both orders goes '
+                'two axes, four elements and not C-contiguous; sequence-valued arguments: every sequence of one, two and three numbers over bool / numpy bool / int / numpy integer / float / numpy floating '
+                'in every order (so every narrower-before-wider mixture) as list, tuple, set and frozenset, plus special values (zeros and bools leading fractions, a late float after eight integers, int64 limits, '
+                'strings, nested sequences, complex, symbols, unit values, bytes, empty) for every seed, plus random sequences of 1..8 elements; non-trivial = at least two kinds of element; every pair of device qubits in both orders goes '
                 'before validate_operation; non-trivial = the specification has a coupling or a two-id target outside SYMMETRIC sets')
     ctx.assumptions += ['vf/checks/c16.py adapters calling cirq_google and canonicalising outputs',
                         'protobuf and numpy are trusted', 'leaf identifiers are assigned by Python equality/hash']
@@ -2702,6 +3127,7 @@ def streams(ctx, cirq, cg, v2, q):
     out.append(('multi', lambda: multi_stream(ctx, cirq, cg, 25 if q else 250)))
     out.append(('measured_programs', lambda: measured_programs_stream(ctx, cirq, v2, 150 if q else 2500)))
     out.append(('ndarrays', lambda: ndarrays_stream(ctx, cirq, cg, 200 if q else 3000)))
+    out.append(('arg_sequences', lambda: arg_sequences_stream(ctx, cirq, cg, 300 if q else 6000)))
     out.append(('qubit_ids', lambda: qubit_ids_stream(ctx, cirq, cg, v2, 300 if q else 3000)))
     out.append(('unit_values', lambda: unit_values_stream(ctx, cirq, cg, v2, 60 if q else 400)))
     out.append(('sweeps', lambda: sweeps_stream(ctx, cirq, cg, v2, 250 if q else 2500)))
@@ -2786,6 +3212,8 @@ def replay(ctx, data):
         return not problems
     if k == 'ndarray':
         return replay_ndarray(cirq, cg, data)
+    if k == 'arg_sequence':
+        return replay_arg_sequence(cirq, cg, data)
     if k == 'device':
         from cirq_google.devices import grid_device as gd
         fam = {gr.gate_spec_name: gr.supported_gates for gr in gd._GATES}
